@@ -3,15 +3,27 @@
 package relay
 
 import (
+	"encoding/json"
+	"fmt"
 	"os"
+	"strings"
 	"testing"
+	"testing/synctest"
+
+	"github.com/libp2p/go-libp2p/x/verif/seqmc"
+	"github.com/libp2p/go-libp2p/x/verif/vrep"
 )
 
 // TestVerifC11 runs the two parts of the C11 check: fault enumeration over one CONNECT / RESERVE (E3 style)
-// and the history search (E1). VERIF_C11_ONLY=faults|histories restricts the run (development aid).
+// and the history search (E1). VERIF_C11_ONLY=faults|histories restricts the run (development aid);
+// VERIF_REPLAY=<file> re-executes exactly the one execution recorded in a replay file and prints its trace.
 func TestVerifC11(t *testing.T) {
 	for _, l := range []string{"relay", "relay2", "p1", "p2", "p3", "p4"} {
 		c11Identity(l)
+	}
+	if p := vrep.ReplayPath(); p != "" {
+		c11Replay(t, p)
+		return
 	}
 	only := os.Getenv("VERIF_C11_ONLY")
 	if only == "" || only == "faults" {
@@ -20,4 +32,91 @@ func TestVerifC11(t *testing.T) {
 	if only == "" || only == "histories" {
 		c11Histories(t)
 	}
+}
+
+func c11Replay(t *testing.T, path string) {
+	r := vrep.New("C11", "replay")
+	defer r.Flush()
+	raw, err := os.ReadFile(path)
+	if err != nil {
+		r.Cap("cannot read replay file: %v", err)
+		return
+	}
+	var f struct {
+		Key    string `json:"key"`
+		Replay struct {
+			Search  string    `json:"search"`
+			History []string  `json:"history"`
+			Case    *c11FCase `json:"case"`
+		} `json:"replay"`
+	}
+	if err := json.Unmarshal(raw, &f); err != nil {
+		r.Cap("cannot parse replay file: %v", err)
+		return
+	}
+	if f.Replay.Case != nil {
+		var res c11FResult
+		synctest.Test(t, func(*testing.T) { res = c11RunFault(*f.Replay.Case) })
+		r.Executions = 1
+		fmt.Printf("C11 replay of fault case: %s\n", res.Case)
+		for _, l := range res.Trace {
+			fmt.Println("   ", l)
+		}
+		fmt.Printf("    outcome: %s\n", res.Outcome)
+		for _, v := range res.Vios {
+			fmt.Printf("    VIOLATION %s: %s\n", v.Key, v.Desc)
+			r.Violate(v.Key, v.Desc, map[string]any{"part": "faults", "case": res.Case, "trace": res.Trace})
+		}
+		r.Sample(map[string]any{"case": res.Case, "outcome": res.Outcome})
+		return
+	}
+	var cfg *c11Cfg
+	for _, c := range c11AllHistoryConfigs() {
+		if c.Name == f.Replay.Search {
+			cfg = c
+		}
+	}
+	if cfg == nil {
+		r.Cap("replay file names an unknown system %q", f.Replay.Search)
+		return
+	}
+	synctest.Test(t, func(*testing.T) {
+		in := c11NewInst(cfg)
+		defer in.sy.shutdown()
+		in.out = func(k string) { fmt.Println("      ", k) }
+		fmt.Printf("C11 replay of history on system %s: %v\n    start: %s\n", cfg.Name, cfg.describe(), in.sy.observe())
+		for i, step := range f.Replay.History {
+			var op *c11Op
+			for _, o := range in.ops() {
+				if c11ShowOp(cfg, o) == step {
+					o := o
+					op = &o
+					break
+				}
+			}
+			if op == nil {
+				r.Cap("step %d %q is not enabled when the history is replayed", i+1, step)
+				return
+			}
+			fmt.Printf("    %d. %s\n", i+1, step)
+			err := c11Apply(in, *op)
+			r.Executions = 1
+			r.Transitions++
+			if in.dead {
+				fmt.Printf("       VIOLATION %v\n", err)
+			} else {
+				fmt.Printf("       relay: %s\n", in.sy.observe())
+			}
+			if err != nil {
+				v, ok := err.(*seqmc.Vio)
+				if !ok {
+					v = &seqmc.Vio{Key: "error", Desc: err.Error()}
+				}
+				r.Violate(v.Key, v.Desc, map[string]any{"search": cfg.Name, "history": f.Replay.History[:i+1]})
+				return
+			}
+		}
+		r.Sample(map[string]any{"search": cfg.Name, "history": f.Replay.History, "result": "no violation", "expected": f.Key})
+		fmt.Println("    no violation reproduced; the file recorded", strings.TrimSpace(f.Key))
+	})
 }
